@@ -123,6 +123,7 @@ fn case(bytes: &[u8]) -> Value {
 
 /// Oracles (1) and (2) on one byte string.
 pub fn check_bytes(bytes: &[u8], with_beatmap: bool, acc: &mut Acc) -> Option<Trace> {
+    let _g = crate::engine::watch::bytes_guard(bytes);
     acc.evals += 1;
     acc.transitions += 1;
     let want = ref_frame(&ref_lines(bytes));
@@ -186,6 +187,7 @@ fn metamorphic(lines: &[&str], base: &Trace, acc: &mut Acc) {
             let text = assemble(&v, false, true);
             acc.evals += 1;
             acc.transitions += 1;
+            let _g = crate::engine::watch::bytes_guard(text.as_bytes());
             match trace_of(text.as_bytes()) {
                 Ok(t) => {
                     // an unknown bracketed line inside a section is handed to the
